@@ -27,6 +27,7 @@ type memConn struct {
 	blockAt   int // index of the Write call that blocks until close (-1: none)
 	failAt    int // index of the Write call that fails (-1: none)
 	delivered chan struct{} // closed when every chunk has been handed to the reader
+	endErr    error         // returned by Read once the chunks are exhausted (nil: block until Close)
 }
 
 func newMemConn(chunks [][]byte) *memConn {
@@ -63,6 +64,9 @@ func (c *memConn) Read(p []byte) (int, error) {
 		return n, nil
 	}
 	c.mu.Unlock()
+	if c.endErr != nil {
+		return 0, c.endErr
+	}
 	<-c.closed
 	return 0, errMemClosed
 }
